@@ -11,6 +11,7 @@ from .. import values as V
 from .. import wire as W
 
 ID = "C03"
+CHECK_BUILT_DESCRIPTOR = True     # engine.oracle_of: declared records must carry their declared descriptor
 CLAIM = dict(
     text="Kernel-checked history theorem for ANY assignment of identifier hashes (colliding ones included) and every "
          "write history: the reader decodes each object with every descriptor it needs bound to itself; descriptor "
